@@ -56,6 +56,10 @@ def cases(tier, variants):
     for b in H.base_runs(variants, maxcors=mcs):
         for k in range(1, 9):
             yield dict(b, part="restart", k=k)
+        if b["maxcor"] >= 5:
+            for k in (6, 8):
+                for m2 in (1, 2):
+                    yield dict(b, part="restart", k=k, m2=m2)
     for b in H.base_runs(variants, maxcors=(2, 3), small=(tier == "quick")):
         for k in range(0, 8):
             for rw in c13.REWRITES:
@@ -176,14 +180,17 @@ def run(case):
             return dict(viol=[], outcome="parent_stopped_early", stats={"skipped": 1})
         obs = F.Obs(p.f, p.g, p.lb, p.ub)
         its = []
+        mc2 = case.get("m2", case["maxcor"])
         r = H.solve(p, case, k + 3, checkpoint=copy.deepcopy(ck), fun=obs.fun, jac=obs.jac,
+                    maxcor=mc2,
                     callback=lambda x, st: its.append((np.array(x, copy=True), copy.deepcopy(st))) and False)
         pts = [np.array(ck.x, copy=True)] + [x for x, _ in its]
         grs = [np.array(ck.jac, copy=True)] + [obs.glog.get(x.tobytes()) for x, _ in its]
         for what, st in [(f"callback{i + 1}", s_) for i, (_, s_) in enumerate(its)] + [("result", r)]:
             sk, yk = st.hess_inv.sk, st.hess_inv.yk
-            if sk.shape[0] > case["maxcor"]:
-                viol.append(V("more_pairs_than_maxcor_after_restart", n=int(sk.shape[0])))
+            if sk.shape[0] > mc2:
+                viol.append(V("more_pairs_than_maxcor_after_restart", n=int(sk.shape[0]),
+                              maxcor=mc2, state=what))
             # split into inherited (leading) and new (trailing) pairs: the longest trailing
             # block with bitwise provenance in the new points
             ok = False
